@@ -23,7 +23,8 @@ RULE = ('seeded frames: 0-6 locals holding generated object graphs (scalars, nes
 ASSUMPTIONS = ['values stay inside the default collection limits (limits are C05), friendly types only (hostile '
                'types are C06)', 'expressions are side-effect free, so evaluating them twice is sound',
                'order of variables within a frame is not part of the property']
-REQUIRE = {'snapshots_compared': 150, 'entries_compared': 1500, 'watches_compared': 50, 'frames_compared': 300}
+REQUIRE = {'snapshots_compared': 150, 'entries_compared': 1500, 'watches_compared': 50, 'frames_compared': 300,
+           'time_budget_cases': 10}
 
 
 def plan(tier, seed):
@@ -78,7 +79,16 @@ def case_frame(seed, out, spec, wd):
     elif mode == 'parent':
         app_root = os.path.dirname(wd)
     custom = {'APP_ROOT': app_root, 'IN_APP_INCLUDE': list(includes), 'IN_APP_EXCLUDE': list(excludes)}
-    case = FrameCase(wd, names, values, depth=depth, method=method, caller_locals=r.chance(0.5), custom=custom)
+    slow = r.chance(0.04)
+    if slow and names:
+        # a value that takes longer to render than the agent's collection time budget (100 ms): the budget may cost
+        # variables of the later frames, never the stack itself
+        values[0] = _Slow()
+        depth = max(depth, 3)
+    case = FrameCase(wd, names, values, depth=depth, method=method, caller_locals=r.chance(0.5), custom=custom,
+                     plugins=[_python_plugin()])
+    if slow and names:
+        case.rig.freeze = False
     case.mod.MODULE_CONST = 'host-global-%d' % r.randrange(100)
     case.mod.marker_fn = lambda: 'called'
     args = {}
@@ -100,6 +110,13 @@ def case_frame(seed, out, spec, wd):
                 probs.add('fidelity:thread', 'snapshot handed over on thread %s, line reached on %s' % (rec.tid, ev.tid))
             snapcheck.check_frames(snap, stack, probs, app_rule=lambda f: _rule2(rule, f))
             stats['frames'] += len(stack)
+            tn = dict(snap.attributes.items()).get('thread_name')
+            if tn is not None and tn != threading.current_thread().name:
+                probs.add('fidelity:thread', 'snapshot says thread %r, the line was reached on %r' % (
+                    tn, threading.current_thread().name))
+            if slow and names:
+                stats['slow'] = True
+                continue
             reached = snapcheck.check_frame_vars(snap, stack, frame_type or 'single_frame',
                                                  {'max_str': snapcheck.default_limits()['max_str'], 'max_coll': None},
                                                  probs, strict_children=2,
@@ -129,11 +146,33 @@ def case_frame(seed, out, spec, wd):
     out.count('entries_compared', stats['entries'])
     out.count('watches_compared', stats['watches'])
     out.count('frames_compared', stats['frames'])
+    if stats.get('slow'):
+        out.count('time_budget_cases')
     for k in gg.kinds:
         out.count('kind_' + k)
     out.case({'names': names, 'skel': [skeleton(v) for v in values], 'depth': depth, 'method': method,
               'ft': frame_type, 'w': wl, 'mode': mode}, nontrivial=stats['snaps'] > 0,
              sample=dict(witness, snapshots=stats['snaps'], entries_compared=stats['entries']))
+
+
+_PLUGIN = []
+
+
+def _python_plugin():
+    """One plugin instance for the whole shard, as in a real agent: it sees many short-lived threads whose ids recur."""
+    if not _PLUGIN:
+        from deep.api.plugin.python import PythonPlugin
+        _PLUGIN.append(PythonPlugin(config=None))
+    return _PLUGIN[0]
+
+
+class _Slow:
+    def __str__(self):
+        import time
+        time.sleep(0.13)
+        return 'slow-value'
+
+    __repr__ = __str__
 
 
 def _rule2(rule, f):
